@@ -45,9 +45,7 @@ Theorem C13_history :
   forall m first ops, 1 <= m -> first = 1 \/ first = 2 ->
     Forall (fun '(id, act) => id <> 0 /\ id < 2 ^ m /\ id mod 2 = first mod 2 /\ mem id act = false)
            (allocs (sc_init first (N.ones m)) ops).
-Proof.
-  intros m first ops Hm Hf. apply history_ids; [exact Hm|apply init_inv; [reflexivity|assumption]].
-Qed.
+Proof. exact allocs_history. Qed.
 Print Assumptions C13_history.
 
 (* registration is refused for id 0 and ids above the maximum; finishing frees exactly that id *)
